@@ -86,7 +86,7 @@ func TestC16(t *testing.T) {
 	}, eval)
 
 	r.SetRule("streams", "schedule search for the device's concurrent producer/consumer loop: one module whose device side answers one owner message with 100..400 small messages, each written with 2..4 Write calls a few hundred nanoseconds to microseconds apart (busy-wait, pseudo-random from the descriptor) while the TO2 send loop drains the pipe concurrently; same oracle (every byte arrives once, in order)")
-	ev.Rapid(r, "streams", ev.N{Quick: 320, Thorough: 12000}, func(t *rapid.T) script {
+	ev.Rapid(r, "streams", ev.N{Quick: 960, Thorough: 24000}, func(t *rapid.T) script {
 		n := rapid.IntRange(100, 400).Draw(t, "n")
 		var ops []devOp
 		for i := 0; i < n; i++ {
